@@ -17,7 +17,7 @@ LEVEL_TEXT = ('seeded exploration of frames (dtype, width, cast dtype, user dime
               'invariants on every file written')
 LEVEL_NOTE = ('trusted: sim/rp66.py; single-write dtype/width sweeps are ordinary sampling, the simulation adds write sequences and '
               'source kinds; a second write that raises (width change) is accepted, a file that is written must be self-consistent')
-TIERS = {'quick': {'cases': 1500, 'wall': 40}, 'thorough': {'cases': 300000, 'wall': 780}}
+TIERS = {'quick': {'cases': 5000, 'wall': 40}, 'thorough': {'cases': 300000, 'wall': 780}}
 RULE = ('case = seeded frames with optional user descriptors and casts, written once or twice (second time with data of another '
         'dtype/width); non-trivial = a second write with changed data, or a shared channel, or a non-inline source; distinct = digest')
 
